@@ -71,6 +71,38 @@ impl Fx for Color {
     }
 }
 
+/// Non-`Zeroable` user types with a hand-written `DefaultInitable`: their `DefaultInit` value is NOT
+/// the zero pattern (shape `(podd HEX)`).
+#[derive(Copy, Clone, Debug, PartialEq, Eq, Align1, CheckedBitPattern, NoUninit)]
+#[repr(C, packed)]
+pub struct Version {
+    pub major: u8,
+    pub minor: u8,
+}
+impl star_frame::unsize::init::DefaultInitable for Version {
+    fn default_init() -> Self {
+        Version { major: 1, minor: 0 }
+    }
+}
+impl Fx for Version {
+    fn fshape() -> Fixed {
+        Fixed::Podd(vec![1, 0])
+    }
+}
+#[derive(Copy, Clone, Debug, PartialEq, Eq, Align1, CheckedBitPattern, NoUninit)]
+#[repr(C, packed)]
+pub struct Magic(pub [u8; 4]);
+impl star_frame::unsize::init::DefaultInitable for Magic {
+    fn default_init() -> Self {
+        Magic(*b"SFv1")
+    }
+}
+impl Fx for Magic {
+    fn fshape() -> Fixed {
+        Fixed::Podd(b"SFv1".to_vec())
+    }
+}
+
 #[zero_copy]
 #[derive(Debug, PartialEq, Eq)]
 pub struct Rec1 {
@@ -83,7 +115,7 @@ impl Fx for Rec1 {
         Fixed::Rec(vec![Fixed::Bool, Fixed::Pod(2), Fixed::Cenum(3)])
     }
 }
-ux_fixed!(Rec1, Color);
+ux_fixed!(Rec1, Color, Version, Magic);
 
 // ------------------------------------------------------------------------------------------------
 // structs and enums
@@ -180,6 +212,17 @@ mod generic_impls {
         }
     }
 }
+
+// non-zero defaults in every position `DefaultInit` reaches: bare, unsized struct field, list
+// element type, `#[default_init]` enum payload, UnsizedList / UnsizedMap element, account field
+ux_struct!(SV1, SV1Owned, SV1Sized, SV1Init, sized { tag: u8 }, fields { ver: Version, items: List<Version, u8> });
+ux_enum!(
+    EV1, EV1Owned,
+    first { V = 3 (Version) init EV1InitV },
+    rest { W = 4 (List<u8, u8>) init EV1InitW, M = 9 (Magic) init EV1InitM }
+);
+ux_struct!(SV2, SV2Owned, SV2Init, fields { e: EV1, magic: Magic, s: SV1 });
+ux_struct!(AcctV, AcctVOwned, AcctVInit, args [, program_account, program = Program16, discriminant = 0x5EEDu16], fields { ver: Version, e: EV1, tail: RemainingBytes });
 
 // generic structs with and without the phantom marker; bool / checked enum first, middle and last
 ux_generic_struct!(GP1, GP1Owned, GP1Sized, args [], sized { first: bool, a: A, last: Color });
@@ -617,6 +660,16 @@ pub fn registry() -> Registry {
         e!("T43", GN2<Color>),
         e!("T44", GN3<bool>),
         e!("T45", UnsizedList<GN1<bool>>),
+        e!("T46", Version),
+        e!("T47", Magic),
+        e!("T48", SV1),
+        e!("T49", EV1),
+        e!("T50", SV2),
+        e!("T51", UnsizedList<Version>),
+        e!("T52", UnsizedList<EV1>),
+        e!("T53", UnsizedMap<u8, SV2>),
+        e!("T54", List<Magic, u16>),
+        ("A06", Box::new(AcctEntry::<AcctV>::new()) as Box<dyn DynType>),
         ("A01", Box::new(AcctEntry::<Acct1>::new()) as Box<dyn DynType>),
         ("A03", Box::new(AcctEntry::<Acct16>::new()) as Box<dyn DynType>),
         ("A04", Box::new(AcctEntry::<Acct32>::new()) as Box<dyn DynType>),
